@@ -252,3 +252,132 @@ def run_provider(script, acceptor=True, max_pdu_length=65536, store_in_file=froz
                     unread=len(w.pending), script_left=len(w.script), loop_exited=prov._is_killed.is_set())
     finally:
         fsm.socket, dulprovider.time, dulprovider.select = saved
+
+
+# ======================================================================================
+# Several providers at once (C20): every provider runs in its own real thread with its own World;
+# a baton lets exactly one of them execute one loop iteration at a time, in a seeded order, so the
+# interleaving of their iterations is controlled.  The module-level replacements dispatch on the
+# calling thread.
+# ======================================================================================
+import threading
+
+
+class Baton(object):
+    def __init__(self, order):
+        self.order = list(order)
+        self.pos = 0
+        self.holder = None
+        self.done = set()
+        self.cond = threading.Condition()
+
+    def turn(self, me):
+        """Called at every iteration head of provider `me`: give the baton back, wait for the next turn."""
+        with self.cond:
+            if self.holder == me:
+                self.holder = None
+                self.cond.notify_all()
+            while True:
+                while self.pos < len(self.order) and self.order[self.pos] in self.done:
+                    self.pos += 1
+                if self.pos >= len(self.order):
+                    return                      # schedule exhausted: run freely
+                if self.holder is None and self.order[self.pos] == me:
+                    self.pos += 1
+                    self.holder = me
+                    return
+                self.cond.wait(0.5)
+
+    def finished(self, me):
+        with self.cond:
+            self.done.add(me)
+            if self.holder == me:
+                self.holder = None
+            self.cond.notify_all()
+
+
+def run_providers_interleaved(scripts, order, acceptor=True, max_pdu_length=65536):
+    """scripts: list of scripts (one provider each); order: list of provider indices (the schedule)."""
+    from pynetdicom2 import dulprovider, fsm
+    import queue
+    tls = threading.local()
+    worlds = [World(s) for s in scripts]
+    baton = Baton(order)
+
+    class SelectModule(object):
+        @staticmethod
+        def select(rl, wl, xl, timeout=None):
+            return tls.world.select(rl, wl, xl, timeout)
+
+    class ClockModule(object):
+        @staticmethod
+        def time():
+            return tls.world.clock.now
+
+    class SocketModule(object):
+        AF_INET = real_socket.AF_INET
+        SOCK_STREAM = real_socket.SOCK_STREAM
+        error = real_socket.error
+
+        @staticmethod
+        def socket(*a, **k):
+            return FakeSocket(tls.world)
+    saved = (fsm.socket, dulprovider.time, dulprovider.select)
+    fsm.socket, dulprovider.time, dulprovider.select = SocketModule, ClockModule, SelectModule
+    results = [None] * len(scripts)
+    try:
+        def worker(k):
+            w = worlds[k]
+            tls.world = w
+            killed_flag = [False]
+
+            class ScriptedProvider(dulprovider.DULServiceProvider):
+                def start(self):
+                    pass
+
+                @property
+                def is_killed(self):
+                    if killed_flag[0]:
+                        return True
+                    if getattr(self, '_in_loop', False):
+                        baton.turn(k)
+                        if w.iteration_head(self):
+                            killed_flag[0] = True
+                            return True
+                    return False
+
+                @is_killed.setter
+                def is_killed(self, v):
+                    killed_flag[0] = bool(v)
+            sock = FakeSocket(w) if acceptor else None
+            prov = ScriptedProvider(frozenset(), None, sock, max_pdu_length)
+            prov._in_loop = True
+            outcome, exc = 'returned', None
+            try:
+                prov.run()
+            except Blocked as e:
+                outcome, exc = 'blocked', repr(e)
+            except Diverged as e:
+                outcome, exc = 'diverged', repr(e)
+            except Exception as e:  # noqa
+                outcome, exc = 'crashed', e
+            prov._in_loop = False
+            baton.finished(k)
+            given = []
+            while True:
+                try:
+                    given.append(prov.to_service_user.get(False))
+                except queue.Empty:
+                    break
+            results[k] = dict(outcome=outcome, exc=exc, wire=list(w.wire), log=list(w.log), given=given,
+                              final=observe_state(prov, w), snapshots=w.snapshots, iterations=w.iterations,
+                              unread=len(w.pending), script_left=len(w.script), loop_exited=prov._is_killed.is_set())
+        threads = [threading.Thread(target=worker, args=(k,)) for k in range(len(scripts))]
+        for t in threads:
+            t.daemon = True
+            t.start()
+        for t in threads:
+            t.join(60)
+    finally:
+        fsm.socket, dulprovider.time, dulprovider.select = saved
+    return results
